@@ -45,11 +45,11 @@ def check_graph(case, sub="graphs"):
     n, mask = case["n"], case["mask"]
     g = gg.to_nx(case)
     adj = rg.adj_from_mask(n, mask)
-    v = rg.graph_state(n, mask)
     cl = gg.classes(n, mask)
     if case.get("labels"):
         cl.append("labels")
     big = n > 7
+    v = None if big else rg.graph_state(n, mask)  # the dense reference only where it is used (n <= 7)
     icls = "graph"
     # graph -> stabilizer forms
     tab = guarded(sub, icls, get_stabilizer_tableau_from_graph, g)
